@@ -1373,9 +1373,38 @@ def rule_S3(ctx) -> None:
     paths = _load_paths(ctx, mod, None, None, assume={atom: True})
     ok = True
     why = ""
+    stream_p = load.args.args[1].arg
     for p in paths:
+        if p.outcome == "raise" and not any(e.kind == "loop" for e in p.events):
+            continue        # rejected before any field was read (e.g. a cleanly exhausted stream reported by load itself)
         calls = [e for e in p.events if e.kind == "call" and dotted(e.data[1]) == "load_varint" and e.depth == 0 and not e.loops]
         loop_idx = next((i for i, e in enumerate(p.events) if e.kind == "loop"), None)
+        # bytes of the prefix that load reads itself (before the field loop)
+        own = [e for i, e in enumerate(p.events) if e.kind == "call" and e.depth == 0 and e.data[1] == A(N(stream_p), "read") and (loop_idx is None or i < loop_idx)]
+        if own:
+            first = own[0].data
+            s_ = p.locals.get(size)
+            if len(own) > 1:
+                ok, why = False, "load reads the length prefix itself in more than one piece (not analysed)"
+                break
+            if calls:
+                c = calls[0].data
+                handed = (len(c[2]) > 1 and c[2][1] == first) or dict(c[3]).get("first") == first
+                if not handed:
+                    ok, why = False, (f"the prefix byte taken by {show(first)} is not handed on to {show(c)}: for a prefix of more than one byte (frames of 128 bytes and more) the low 7 bits "
+                                      "of the announced length are lost")
+                    break
+                if s_ != ("item", c, 0):
+                    ok, why = False, f"`{size}` is {show(s_) if s_ else None}, not the value decoded by load_varint"
+                    break
+                continue
+            # no varint call: only right for a one-byte prefix, i.e. when the path saw the continuation bit clear
+            b0 = ("sub", first, C(0))
+            clear = any((k == ("op", "&", b0, C(0x80)) and not v) or (k == ("op", "<", b0, C(0x80)) and v) or (k == ("op", "<", C(0x7F), b0) and not v) for k, v in p.valuation.items())
+            if s_ == b0 and clear:
+                continue
+            ok, why = False, f"`{size}` is taken as {show(s_) if s_ else None} from a prefix byte load read itself, without the continuation bit having been found clear"
+            break
         if not calls:
             ok, why = False, "no load_varint(stream) call before the field loop"
             break
@@ -1421,6 +1450,13 @@ def rule_U9(ctx, rule: str = "U9") -> None:
             recs.add(n.target.id)
     direct = [n for n in ast.walk(fn) if isinstance(n, ast.Call) and isinstance(n.func, ast.Attribute) and isinstance(n.func.value, ast.Name) and n.func.value.id == stream
               and n.func.attr in ("read", "read1", "readinto", "readline", "readall", "getvalue", "getbuffer", "seek", "peek")]
+    # what load reads before the first record is taken belongs to the frame's length prefix (S3 decides that part)
+    wire_loops = [lp for lp in ast.walk(fn) if isinstance(lp, (ast.For, ast.While)) and (
+        (isinstance(lp, ast.For) and isinstance(lp.target, ast.Name) and lp.target.id in recs) or any(
+            isinstance(c, ast.Call) and isinstance(c.func, ast.Name) and c.func.id == "next" and c.args and isinstance(c.args[0], ast.Name) and c.args[0].id in gens for c in ast.walk(lp)))]
+    first_loop_line = min((lp.lineno for lp in wire_loops), default=None)
+    if first_loop_line is not None:
+        direct = [n for n in direct if n.lineno >= first_loop_line]
     ctx.count(len(direct) + 1)
     if direct:
         ctx.refuted(rule, "load:stream-read-only-by-the-record-reader", ast.unparse(direct[0])[:60], mod.loc(direct[0]),
